@@ -35,7 +35,7 @@ type Solver struct {
 	level int
 	// vars whose declaration exists (global) and the level at which their range
 	// assertion currently lives (-1: not asserted)
-	declared  map[int]bool
+	declared  map[string]bool
 	rangeLvl  map[int]int
 	lvlRanges [][]int // per level: var ids range-asserted at this level
 	Stats     SolverStats
@@ -93,7 +93,7 @@ func (s *Solver) start() error {
 	}
 	s.cmd, s.in, s.out = cmd, in, bufio.NewReaderSize(out, 1<<16)
 	s.level = 0
-	s.declared = map[int]bool{}
+	s.declared = map[string]bool{}
 	s.rangeLvl = map[int]int{}
 	s.lvlRanges = [][]int{nil}
 	if strings.HasPrefix(s.Name, "z3") {
@@ -178,8 +178,8 @@ func (s *Solver) prepare(t *Term) {
 	}
 	for _, id := range ids {
 		v := vs[id]
-		if !s.declared[id] {
-			s.declared[id] = true
+		if !s.declared[v.Name] {
+			s.declared[v.Name] = true
 			switch {
 			case v.S == SBool:
 				s.send("(declare-const " + v.Name + " Bool)")
@@ -311,7 +311,7 @@ func (s *Solver) Values(vars []*Term) (Model, error) {
 		}
 		var names []string
 		for _, v := range vars[i:j] {
-			if s.declared[v.ID] {
+			if s.declared[v.Name] {
 				names = append(names, v.Name)
 			}
 		}
